@@ -84,6 +84,7 @@ type Ctx struct {
 	lockCheck       bool // generate lock-discipline obligations (C25)
 	lockOnly        bool // the unit is a lock-discipline sweep unit: only guard obligations and lock preconditions are kept
 	nguard          int
+	acqInit         map[string]bool
 	panicCount      map[string]int
 	preCount        map[string]int
 	fset            *token.FileSet
